@@ -99,6 +99,21 @@ def main():
     for tr in ("PartialEq", "Eq", "PartialOrd", "Ord", "Hash"):
         if re.search(r"impl\s+(?:std::\w+::|core::\w+::)?%s\s+for\s+DataValue\b" % tr, vsrc):
             die("hand-written impl %s for DataValue found" % tr)
+    # payload structs whose derived, field-lexicographic Ord/Eq/Hash the model mirrors
+    isrc = strip_comments(open(os.path.join(repo, "src/types/interval.rs")).read())
+    m = re.search(r"((?:\s*#\[[^\]]*\]\s*)*)pub\s+struct\s+Interval\s*\{([^}]*)\}", isrc)
+    if not m:
+        die("struct Interval { .. } not found")
+    iv_derive = re.search(r"derive\(([^)]*)\)", m.group(1))
+    if not iv_derive:
+        die("no derive(...) on struct Interval")
+    iv_derives = [d.strip() for d in iv_derive.group(1).split(",") if d.strip()]
+    iv_fields = [re.sub(r"\s+", "", f) for f in m.group(2).split(",") if f.strip()]
+    for tr in ("PartialEq", "Eq", "PartialOrd", "Ord", "Hash"):
+        if tr not in iv_derives:
+            die("Interval no longer derives %s" % tr)
+        if re.search(r"impl\s+(?:std::\w+::|core::\w+::)?%s\s+for\s+Interval\b" % tr, isrc):
+            die("hand-written impl %s for Interval found" % tr)
     vvars = split_variants(vbody)
     tvars = split_variants(tbody)
     disp = []
@@ -120,6 +135,8 @@ def main():
         f.write("def dataValueDerives : List String :=\n  [%s]\n\n" % ", ".join(lean_str(d) for d in derives["DataValue"]))
         f.write("/-- variants of `enum DataType` in declaration order -/\n")
         f.write("def dataTypeVariants : List String :=\n  [%s]\n\n" % ", ".join(lean_str(n) for _, n, _ in tvars))
+        f.write("/-- fields of `struct Interval` in declaration order (= derived Ord / Hash order), `name:type` -/\n")
+        f.write("def intervalFields : List String :=\n  [%s]\n\n" % ", ".join(lean_str(x) for x in iv_fields))
         f.write("end ValueOrder\nend Gen\nend RlModel\n")
     # only touch the file when the content changed (keeps lake builds incremental)
     new = open(out + ".tmp").read()
